@@ -22,8 +22,10 @@
 (*                                                                         *)
 (* ptag / prows: what the as-built IP family pruning (Query, part 3) would *)
 (* return if it differs from the definition ("neq": fixed by not pruning   *)
-(* on != atoms, "or": needs a sound treatment of disjunctions); used only  *)
-(* to name the class of a mismatch, never as the expected value.           *)
+(* on != atoms, "or": needs a sound treatment of disjunctions); hinge: the  *)
+(* pruned result is what the definition gives under the other reading of   *)
+(* != across IP families.  Used only to name the class of a mismatch,      *)
+(* never as the expected value.                                            *)
 (***************************************************************************)
 EXTENDS Query, CondDomain, Json
 CONSTANTS GenSet, Seed, NSeeded
@@ -105,12 +107,15 @@ Sel4(cd, ifs) == Q(ifs, {"dip", "proto"}, TRUE, FALSE, cd, Whole, "none")
 \* ---- one case
 ExpOut(e) == [rows |-> FlatRows(e.rows), totals |-> e.totals, hits |-> e.hits, ifaces |-> e.ifaces]
 QOut(q) == [x \in DOMAIN q \ {"sel"} |-> q[x]]
-CaseOf4(n, q, class, e, p, pn) ==
+CaseOf4(n, q, class, e, p, pn, alt) ==
   [db |-> n, q |-> QOut(q), class |-> class, exp |-> ExpOut(e),
    ptag |-> IF p = e.rows THEN "same" ELSE IF pn = e.rows THEN "neq" ELSE "or",
-   prows |-> IF p = e.rows THEN {} ELSE FlatRows(p)]
+   prows |-> IF p = e.rows THEN {} ELSE FlatRows(p),
+   \* does the pruned result equal the definition under the other reading of != ?
+   hinge |-> IF p = e.rows THEN FALSE ELSE alt = p]
 CaseOfD(n, d, q, class) ==
-  CaseOf4(n, q, class, Result(d, q), PipelineRows(d, q, RealBulk, "asbuilt"), PipelineRows(d, q, RealBulk, "neqfixed"))
+  CaseOf4(n, q, class, Result(d, q), PipelineRows(d, q, RealBulk, "asbuilt"), PipelineRows(d, q, RealBulk, "neqfixed"),
+          Rows(d, OtherReading(q)))
 CaseOf(n, q, class) == CaseOfD(n, DBByName(n), q, class)
 
 WithSel(q, v) == [x \in DOMAIN q \cup {"sel"} |-> IF x = "sel" THEN v ELSE q[x]]
